@@ -29,6 +29,7 @@ def required_cells(tier):
     for a, b in COMBOS:
         for r in ("parallel", "antiparallel", "perpendicular", "generic"):
             req["combo:%s,%s/%s" % (a, b, r)] = 50 if q else 2000
+    req["history:direction-vector-reused-after-assignment"] = 300
     return req
 
 
@@ -66,14 +67,34 @@ def cases(rng, budget, widx, nworkers, tier):
             v = gen.rdir(rng, 4)
             label = "random"
         n += 1
-        yield {"u": u, "v": v, "combo": n % len(COMBOS), "label": label, "ls": rng.getrandbits(30),
-               "p": gen.rpt(rng), "q": gen.rpt(rng)}
+        c_ = {"u": u, "v": v, "combo": n % len(COMBOS), "label": label, "ls": rng.getrandbits(30),
+              "p": gen.rpt(rng), "q": gen.rpt(rng)}
+        if rng.random() < 0.1:
+            c_["hist"] = {"who": rng.randrange(2), "w0": gen.rdir(rng, 4)}
+        yield c_
 
 
-def _mk(G, kind, p, d, r):
+def _mk(G, kind, p, d, r, hist=None):
+    if hist is None:
+        if kind == "VEC":
+            return G.Vector(*[float(c) for c in d])
+        return lift((kind, p, d), r)
+    # history: the direction Vector is first another direction, is used (angle / length / parallel),
+    # and is then overwritten coordinate by coordinate before the operand is built from it
+    w0 = hist["w0"]
+    vec = G.Vector(*[float(c) for c in w0])
+    other = G.Vector(1.0, -2.0, 0.5)
+    for fn in (lambda: vec.length(), lambda: G.angle(vec, other), lambda: G.parallel(vec, other), lambda: vec.normalized(), lambda: hash(vec)):
+        try:
+            fn()
+        except Exception:
+            pass
+    for i in range(3):
+        vec[i] = float(d[i])
     if kind == "VEC":
-        return G.Vector(*[float(c) for c in d])
-    return lift((kind, p, d), r)
+        return vec
+    P = G.Point(*[float(c) for c in p])
+    return G.Line(P, vec) if kind == "L" else G.Plane(P, vec)
 
 
 def judge(case):
@@ -101,8 +122,11 @@ def judge(case):
     r = random.Random(case.get("ls", 0))
     p = case.get("p", (F(0), F(0), F(0)))
     q = case.get("q", (F(1), F(2), F(-1)))
-    x = _mk(G, ka, p, u, r)
-    y = _mk(G, kb, q, v, r)
+    h = case.get("hist")
+    x = _mk(G, ka, p, u, r, h if h and h["who"] == 0 else None)
+    y = _mk(G, kb, q, v, r, h if h and h["who"] == 1 else None)
+    if h:
+        mu.cell("history:direction-vector-reused-after-assignment")
     forms = [("f(a,b)", lambda f, a, b: f(a, b), x, y), ("f(b,a)", lambda f, a, b: f(a, b), y, x)]
     if ka != "VEC":
         forms.append(("a.f(b)", None, x, y))
